@@ -231,6 +231,16 @@ theorem covered_locations :
      ("File", "mediaParts"), ("File", "drawingParts")].all
       (fun x => !allowedUnguarded.contains x) = true := by decide
 
+/-- **finding_spill_index_unguarded** (*no data race* clause fails for workbooks opened with
+a small `UnzipXMLSizeLimit`): `getFromStringItem` builds and reads the index of the spilled
+shared-string table (`File.sharedStringItem`, `File.sharedStringTemp`) under no common lock —
+`GetCellValue` reaches it holding only its own worksheet's mutex, so reads on two worksheets
+conflict. The race detector reports it and concurrent readers get WRONG cell values
+(`spill:GetCellValue-wrong-result`). Both locations are in `notCovered`. -/
+theorem finding_spill_index_unguarded :
+    Impl.predictsRace ("File", "sharedStringItem") "GetCellValue" "GetCellValue" = true ∧
+    (Impl.unguarded "GetCellValue").contains ("File", "sharedStringTemp") = true := by decide +kernel
+
 /-! ## linearizability of critical sections -/
 
 /-- **atomic_sections_linearizable** (*linearizable* clause, general form; any lock and
